@@ -476,6 +476,16 @@ def play_to_end(b, key_words, plan=None, actions=None, legal_fn=None, cap=400, s
     return ep, ended
 
 
+def reward_twins(model):
+    """REWARD_TWINS may be declared on the model class or at module level of the model file."""
+    import sys
+
+    t = getattr(model, "REWARD_TWINS", None)
+    if t is None:
+        t = getattr(sys.modules.get(type(model).__module__), "REWARD_TWINS", None)
+    return dict(t or {})
+
+
 def c08_judge(ctx, b, model, ep, case, twin_b=None):
     ret = ep.rewards.sum(axis=0) if len(ep.timesteps) else 0.0
     obj = model.objective(ep)
@@ -488,6 +498,14 @@ def c08_judge(ctx, b, model, ep, case, twin_b=None):
             ctx.fail("return_vs_objective", b.name, "return differs from the documented objective",
                      f"sum of rewards {np.asarray(ret).tolist()} vs objective {np.asarray(val).tolist()} "
                      f"(steps={len(ep.actions)}) [entry={b.entry} key={case['key']}]", case, size=len(ep.actions))
+    if twin_b is not None and hasattr(model, "twin_applicable") and not model.twin_applicable(ep):
+        # documented as a different signal for this ending: the difference is recorded, not asserted
+        ep2, _ = play_to_end(twin_b, case["key"], actions=[a.tolist() for a in ep.actions], cap=len(ep.actions))
+        r1 = np.asarray(ret, np.float64)
+        r2 = np.asarray(ep2.rewards.sum(axis=0) if len(ep2.timesteps) else 0.0, np.float64)
+        ctx.count("twin_not_asserted_episodes")
+        if not np.allclose(r1, r2, rtol=1e-4, atol=1e-3):
+            ctx.count("twin_not_asserted_and_returns_differ")
     if twin_b is not None and (not hasattr(model, "twin_applicable") or model.twin_applicable(ep)):
         ep2, ended2 = play_to_end(twin_b, case["key"], actions=[a.tolist() for a in ep.actions], cap=len(ep.actions))
         ret2 = ep2.rewards.sum(axis=0) if len(ep2.timesteps) else 0.0
@@ -511,7 +529,7 @@ def c08_run_item(prop, item, seed, tier):
     with ctx.guard(env, {"env": env, "entry": entry, "stage": "construct"}):
         b = envs.bundle(env, entry)
         model = base.get_model(b)
-        twins = getattr(model, "REWARD_TWINS", {})
+        twins = reward_twins(model)
         twin_b = envs.bundle(env, twins[entry]) if entry in twins else None
         legal_fn = (lambda s, ts: model.legal(s)) if base.supports(model, "legal") else None
         cap = getattr(model, "EPISODE_CAP", 400)
@@ -549,7 +567,7 @@ def c08_replay(prop, case):
             return []
         model = base.get_model(b)
         ep, ended = play_to_end(b, case["key"], actions=case["actions"], cap=len(case["actions"]))
-        twins = getattr(model, "REWARD_TWINS", {})
+        twins = reward_twins(model)
         twin_b = envs.bundle(env, twins[entry]) if entry in twins else None
         if ended:
             c08_judge(ctx, b, model, ep, case, twin_b)
